@@ -22,6 +22,7 @@ TARGET = os.path.join(CACHE, "target")
 BASE_COQ = os.path.join(VERIF, "base", "coq")
 DRIVER = os.path.join(VERIF, "base", "ocaml", "driver.ml")
 NCPU = os.cpu_count() or 4
+REPO = os.environ.get("GIXV_REPO", "/repo")   # only tools/altrun.sh sets this
 
 FORBIDDEN = re.compile(
     r"\b(Admitted|admit|Axiom|Axioms|Parameter|Parameters|Conjecture|Admit Obligations|"
@@ -117,7 +118,7 @@ def run_tables(p):
     t = os.path.join(p.dir, "tables.py")
     if not os.path.exists(t):
         return True, ""
-    rc, out = sh([sys.executable, t], cwd=p.dir, timeout=120)
+    rc, out = sh([sys.executable, t, REPO], cwd=p.dir, timeout=120)
     if rc != 0:
         return False, "tables.py failed (anchor not found in /repo?):\n" + out[-2000:]
     # tables.py prints the full text of coq/Tables.v on stdout
@@ -212,7 +213,7 @@ def build_proofs(p):
 def build_harness(p, release=False):
     lock = os.path.join(p.harness, "Cargo.lock")
     if not os.path.exists(lock):
-        shutil.copy("/repo/Cargo.lock", lock)
+        shutil.copy(os.path.join(REPO, "Cargo.lock"), lock)
     env = {"CARGO_TARGET_DIR": TARGET, "CARGO_NET_OFFLINE": "true", "RUSTFLAGS": "--cfg gix_verif -Awarnings"}
     cmd = "cargo build --offline" + (" --release" if release else "")
     rc, out = sh("timeout 3000 " + cmd, cwd=p.harness, env=env)
@@ -249,9 +250,11 @@ def parallel_lines(cmd, cases, shards, timeout=3600, unlimited_stack=False):
 
 
 def load_known():
+    """known-findings.txt is committed and never written at run time."""
     known, fixed = {}, []
-    path = os.path.join(VERIF, "known-findings.txt")
-    if os.path.exists(path):
+    for path in [os.path.join(VERIF, "known-findings.txt")] + sorted(glob.glob(os.path.join(VERIF, "props", "*", "findings.txt"))):
+        if not os.path.exists(path):
+            continue
         for line in open(path):
             line = line.strip()
             m = re.match(r"known:\s+property=(\S+)\s+class=(\S+)\s+(.*)", line)
